@@ -135,7 +135,7 @@ def _trace_modules(base, varnames, traces, initpred, actions, tag, invs=()):
     rows = []
     for tr in traces:
         rows.append('<<' + ',\n'.join('[act |-> %s, st |-> %s]' % (to_tla(a), to_tla(s)) for a, s in tr) + '>>')
-    datatxt = '---- MODULE %s ----\nEXTENDS TLC\nTraces == <<\n%s\n>>\n====\n' % (data, ',\n'.join(rows))
+    datatxt = '---- MODULE %s ----\nEXTENDS TLC, Integers\nTraces == <<\n%s\n>>\n====\n' % (data, ',\n'.join(rows))
     txt = TRACE_TEMPLATE % dict(
         name=name, base=base, data=data,
         bindcur=' /\\ '.join('%s = r.%s' % (v, v) for v in varnames),
